@@ -40,6 +40,9 @@ const c19NodeName = "c19-node"
 var c19ExclNames = []schedulingconfig.CPUExclusivePolicy{"", schedulingconfig.CPUExclusivePolicyNone,
 	schedulingconfig.CPUExclusivePolicyPCPULevel, schedulingconfig.CPUExclusivePolicyNUMANodeLevel}
 
+// c19SpecShapeNames: what the user's resource-spec annotation declares (ext8)
+var c19SpecShapeNames = []string{"absent", "bind-only", "excl-only", "both", "required-bind"}
+
 func c19ExclEnum(p schedulingconfig.CPUExclusivePolicy) int {
 	for i, x := range c19ExclNames {
 		if x == p {
@@ -564,6 +567,75 @@ func TestVerifC19Numa(t *testing.T) {
 						a.excl = e
 					}
 				}
+				// ---- resource-spec shape (ext8): what the USER declared on the object before it was scheduled.
+				//   0 absent (no annotation), 1 bind policy only, 2 exclusive policy ONLY (no bind policy: PreFilter
+				//   defaults it from the plugin args, appendResourceSpecIfMissed must write the defaulted policy back
+				//   INTO the declared spec), 3 both, 4 requiredCPUBindPolicy (+ exclusive, preferred bind 1/2)
+				// The persisted object is whatever the real PreBind / PreBindReservation leaves behind.
+				specShape := r.Intn(5)
+				if specShape <= 1 {
+					a.excl = 0 // nothing declared: PreFilter reads "" and Reserve marks the CPUs with ""
+				}
+				var declared *extension.ResourceSpec
+				switch specShape {
+				case 1:
+					declared = &extension.ResourceSpec{PreferredCPUBindPolicy: extension.CPUBindPolicyFullPCPUs}
+				case 2:
+					declared = &extension.ResourceSpec{PreferredCPUExclusivePolicy: extension.CPUExclusivePolicy(c19ExclNames[a.excl])}
+				case 3:
+					declared = &extension.ResourceSpec{PreferredCPUBindPolicy: extension.CPUBindPolicyFullPCPUs,
+						PreferredCPUExclusivePolicy: extension.CPUExclusivePolicy(c19ExclNames[a.excl])}
+				case 4:
+					declared = &extension.ResourceSpec{RequiredCPUBindPolicy: extension.CPUBindPolicyFullPCPUs,
+						PreferredCPUExclusivePolicy: extension.CPUExclusivePolicy(c19ExclNames[a.excl])}
+					if r.Bool() {
+						declared.PreferredCPUBindPolicy = extension.CPUBindPolicyFullPCPUs
+					}
+				}
+				// the value "Default" of either bind field (1/3 of the declared bind fields): PreFilter resolves it to the
+				// plugin-args default, appendResourceSpecIfMissed must write the resolved policy back over it
+				if declared != nil && declared.PreferredCPUBindPolicy != "" && r.Chance(1, 3) {
+					declared.PreferredCPUBindPolicy = extension.CPUBindPolicyDefault
+					h.Tag("spec:preferred-bind=Default")
+				}
+				if declared != nil && declared.RequiredCPUBindPolicy != "" && r.Chance(1, 3) {
+					declared.RequiredCPUBindPolicy = extension.CPUBindPolicyDefault
+					h.Tag("spec:required-bind=Default")
+				}
+				h.Tag("spec:" + c19SpecShapeNames[specShape])
+				// c19SetState: the policy fields of the preFilterState exactly as PreFilter derives them from `declared`
+				// (DefaultCPUBindPolicy = FullPCPUs when no bind policy is declared; required copied; exclusive copied)
+				c19SetState := func(st *preFilterState) {
+					st.preferredCPUBindPolicy = schedulingconfig.CPUBindPolicyFullPCPUs
+					if declared != nil && declared.RequiredCPUBindPolicy != "" {
+						st.requiredCPUBindPolicy = schedulingconfig.CPUBindPolicyFullPCPUs // declared FullPCPUs, or Default resolved
+					}
+				}
+				// c19SpecCheck (oracle, ext8): "the annotation reads back to what was written" for the resource SPEC: after
+				// PreBind every field the user declared is still there, and a bind policy that had to be defaulted was added.
+				c19SpecCheck := func(annots map[string]string, boundCPUs int, when string) {
+					sp, e := extension.GetResourceSpec(annots)
+					want := extension.ResourceSpec{}
+					if declared != nil {
+						want = *declared
+					}
+					decl := want
+					if boundCPUs > 0 { // appendResourceSpecIfMissed ran (CPU-bind allocation)
+						if want.RequiredCPUBindPolicy == extension.CPUBindPolicyDefault {
+							want.RequiredCPUBindPolicy = extension.CPUBindPolicyFullPCPUs
+						}
+						if want.PreferredCPUBindPolicy == extension.CPUBindPolicyDefault {
+							want.PreferredCPUBindPolicy = extension.CPUBindPolicyFullPCPUs
+						}
+						if want.RequiredCPUBindPolicy == "" && want.PreferredCPUBindPolicy == "" {
+							want.PreferredCPUBindPolicy = extension.CPUBindPolicyFullPCPUs
+						}
+					}
+					if e != nil || sp == nil || *sp != want {
+						h.Fail("C19:numa-prebind-dropped-declared-spec", "object %d (%s, %d CPUs bound, declared spec shape %s): the user declared resource-spec %+v, PreBind must persist %+v (declared fields kept, defaulted bind policy added) but the persisted annotation reads %q (err=%v); a restarted scheduler rebuilds the CPUs with the exclusive policy read from it",
+							a.uid, when, boundCPUs, c19SpecShapeNames[specShape], decl, want, annots[extension.AnnotationResourceSpec], e)
+					}
+				}
 				for _, c := range a.cpus {
 					for _, o := range objs {
 						if o.alloc != nil && !o.term && o.alloc.excl != a.excl {
@@ -579,15 +651,15 @@ func TestVerifC19Numa(t *testing.T) {
 				// the pod as the user created it: resource spec annotation carries the exclusive policy
 				pod := &corev1.Pod{ObjectMeta: metav1.ObjectMeta{Namespace: "default", Name: fmt.Sprintf("p%d", a.uid),
 					UID: types.UID(strconv.Itoa(a.uid))}}
-				_ = extension.SetResourceSpec(pod, &extension.ResourceSpec{
-					PreferredCPUBindPolicy:      extension.CPUBindPolicyFullPCPUs,
-					PreferredCPUExclusivePolicy: extension.CPUExclusivePolicy(c19ExclNames[a.excl])})
+				if declared != nil {
+					_ = extension.SetResourceSpec(pod, declared)
+				}
 				pa := &PodAllocation{UID: pod.UID, Namespace: pod.Namespace, Name: pod.Name, CPUSet: cpuset.NewCPUSet(a.cpus...)}
 				state := &preFilterState{allocation: pa}
 				if len(a.cpus) > 0 {
 					// PreFilter copies the exclusive policy only for CPU-bind pods
 					state.requestCPUBind = true
-					state.preferredCPUBindPolicy = schedulingconfig.CPUBindPolicyFullPCPUs
+					c19SetState(state)
 					state.preferredCPUExclusivePolicy = c19ExclNames[a.excl]
 					state.numCPUsNeeded = len(a.cpus)
 					pa.CPUExclusivePolicy = state.preferredCPUExclusivePolicy
@@ -614,12 +686,12 @@ func TestVerifC19Numa(t *testing.T) {
 						},
 					}
 					specWhere := 2 - kind // 0: the user put the resource spec on spec.template, 1: on the Reservation itself
-					spec := &extension.ResourceSpec{PreferredCPUBindPolicy: extension.CPUBindPolicyFullPCPUs,
-						PreferredCPUExclusivePolicy: extension.CPUExclusivePolicy(c19ExclNames[a.excl])}
-					if specWhere == 0 {
-						_ = extension.SetResourceSpec(&resv.Spec.Template.ObjectMeta, spec)
+					if declared == nil {
+						// nothing declared anywhere
+					} else if specWhere == 0 {
+						_ = extension.SetResourceSpec(&resv.Spec.Template.ObjectMeta, declared)
 					} else {
-						_ = extension.SetResourceSpec(resv, spec)
+						_ = extension.SetResourceSpec(resv, declared)
 					}
 					h.Tag(fmt.Sprintf("bind:reservation-spec-on-%d", specWhere))
 					// ---- stale template (ext2): the template was copied from a RUNNING pod (the migration controller puts the
@@ -648,7 +720,7 @@ func TestVerifC19Numa(t *testing.T) {
 						}
 						_ = extension.SetResourceStatus(&resv.Spec.Template.ObjectMeta, stale)
 						h.Tag("bind:reservation-stale-template-status")
-						if specWhere == 1 && r.Bool() {
+						if specWhere == 1 && declared != nil && r.Bool() {
 							_ = extension.SetResourceSpec(&resv.Spec.Template.ObjectMeta, &extension.ResourceSpec{PreferredCPUBindPolicy: extension.CPUBindPolicyFullPCPUs,
 								PreferredCPUExclusivePolicy: extension.CPUExclusivePolicy(c19ExclNames[(a.excl+1+r.Intn(3))%4])})
 							h.Tag("bind:reservation-stale-template-spec")
@@ -667,6 +739,7 @@ func TestVerifC19Numa(t *testing.T) {
 				// policy - only the NUMA records differ).  PreBind must write the CURRENT allocation whatever the object
 				// carries (theorem prebind_writes_current_allocation).
 				var prevAttempt *c19Alloc
+				everCPUs := 0 // the largest CPU set any attempt of this object took to PreBind so far (> 0: the bind policy was defaulted)
 				nTries := 0
 				if r.Chance(1, 3) {
 					nTries = 1
@@ -743,7 +816,7 @@ func TestVerifC19Numa(t *testing.T) {
 					st1 := &preFilterState{allocation: pa1}
 					if len(a1.cpus) > 0 {
 						st1.requestCPUBind = true
-						st1.preferredCPUBindPolicy = schedulingconfig.CPUBindPolicyFullPCPUs
+						c19SetState(st1)
 						st1.preferredCPUExclusivePolicy = c19ExclNames[a1.excl]
 						st1.numCPUsNeeded = len(a1.cpus)
 						pa1.CPUExclusivePolicy = st1.preferredCPUExclusivePolicy
@@ -777,6 +850,14 @@ func TestVerifC19Numa(t *testing.T) {
 					annots1 := pod.Annotations
 					if resv != nil {
 						annots1 = resv.Annotations
+					}
+					if len(a1.cpus) > everCPUs {
+						everCPUs = len(a1.cpus)
+					}
+					if resv != nil {
+						c19SpecCheck(reservationutil.NewReservePod(resv.DeepCopy()).Annotations, everCPUs, "reservation, attempt that failed to bind")
+					} else {
+						c19SpecCheck(annots1, everCPUs, "pod, attempt that failed to bind")
 					}
 					if rs1, e1 := extension.GetResourceStatus(annots1); e1 != nil || rs1 == nil {
 						h.Obs("annot ")
@@ -849,6 +930,18 @@ func TestVerifC19Numa(t *testing.T) {
 						h.Tag("bind:reservation-waiting")
 					}
 					annots = resv.Annotations
+				}
+				// a retried object had its bind policy defaulted by whichever attempt bound CPUs first
+				if len(a.cpus) > everCPUs {
+					everCPUs = len(a.cpus)
+				}
+				if resv != nil {
+					c19SpecCheck(reservationutil.NewReservePod(resv.DeepCopy()).Annotations, everCPUs, "reservation")
+				} else {
+					c19SpecCheck(annots, everCPUs, "pod")
+				}
+				if specShape == 2 && a.excl >= 2 && len(a.cpus) > 0 {
+					h.Tag(fmt.Sprintf("spec:excl-only-exclusive-bound:kind=%d", kind))
 				}
 				rs, gerr := extension.GetResourceStatus(annots)
 				text := ""
@@ -1257,7 +1350,7 @@ func TestVerifC19Numa(t *testing.T) {
 		}
 		h.End()
 	}
-	h.Close("history of bind (real Reserve+PreBind on a pod, or Reserve(NewReservePod)+PreBindReservation on a Reservation with its resource spec on the template or on itself) / delete / terminate / same-allocation update / duplicate add / hand-made objects on a 1-16 CPU topology (maxRef 1-3, CPU reuse as for reservation owners, NUMA amounts incl. zero and absent keys), cut anywhere, then two shuffled replays with duplicates into fresh caches. Retry histories (1/3 of the binds, ext5): before the cycle that binds, 1-2 earlier cycles of the SAME object run Reserve + PreBind (annotation written on the pod / Reservation object), fail to bind and are unreserved (numa try / numa unres); each allocates something else (same CPU set incl. none at all with other NUMA records, other CPU set with the same records, both different), so the object reaches PreBind already annotated and must end up carrying the allocation of the LAST cycle. Rebuild shapes per surviving bound object (1/5 each, else plain add): add(unbound,annotated) then update(unbound->bound, same annotations); add before the fresh manager knows the node topology, topology arrives, no-change resync update. Event shapes: every delete goes to the registered OnDelete entry point (pod handler; FilteringResourceEventHandler+ReservationToPodEventHandler for Reservations), 2/5 of the pod AND Reservation deletes as cache.DeletedFinalStateUnknown{Key,Obj} by value (the IsObjValidActiveReservation filter must unwrap the tombstone before the adapter's type switch, else the Reservation's CPUs stay taken in the live ledger); 1/12 of the steps and 1/8 of the replays add a degenerate delete (tombstone with a foreign-type / nil / typed-nil Obj, bare foreign object) that must change nothing. Hypothesis coverage: hyp:excl-agree / hyp:excl-disagree = all surviving holders of every held CPU carry the same exclusive policy; where they do, the rebuilt marker must be that policy. Non-trivial = >= 2 surviving allocations")
+	h.Close("history of bind (real Reserve+PreBind on a pod, or Reserve(NewReservePod)+PreBindReservation on a Reservation with its resource spec on the template or on itself) / delete / terminate / same-allocation update / duplicate add / hand-made objects on a 1-16 CPU topology (maxRef 1-3, CPU reuse as for reservation owners, NUMA amounts incl. zero and absent keys), cut anywhere, then two shuffled replays with duplicates into fresh caches. Resource-spec shapes (ext8, 1/5 each, on the pod / on the Reservation / on its spec.template): absent, bind policy only, exclusive policy ONLY (bind policy defaulted and written back by appendResourceSpecIfMissed), both, requiredCPUBindPolicy (+ exclusive, preferred bind 1/2), 1/3 of the declared bind fields with the value Default (resolved and written back); the stored object is the one the real PreBind / PreBindReservation left behind and after every PreBind the persisted resource-spec must keep every declared field (+ the defaulted bind policy when CPUs were bound). Retry histories (1/3 of the binds, ext5): before the cycle that binds, 1-2 earlier cycles of the SAME object run Reserve + PreBind (annotation written on the pod / Reservation object), fail to bind and are unreserved (numa try / numa unres); each allocates something else (same CPU set incl. none at all with other NUMA records, other CPU set with the same records, both different), so the object reaches PreBind already annotated and must end up carrying the allocation of the LAST cycle. Rebuild shapes per surviving bound object (1/5 each, else plain add): add(unbound,annotated) then update(unbound->bound, same annotations); add before the fresh manager knows the node topology, topology arrives, no-change resync update. Event shapes: every delete goes to the registered OnDelete entry point (pod handler; FilteringResourceEventHandler+ReservationToPodEventHandler for Reservations), 2/5 of the pod AND Reservation deletes as cache.DeletedFinalStateUnknown{Key,Obj} by value (the IsObjValidActiveReservation filter must unwrap the tombstone before the adapter's type switch, else the Reservation's CPUs stay taken in the live ledger); 1/12 of the steps and 1/8 of the replays add a degenerate delete (tombstone with a foreign-type / nil / typed-nil Obj, bare foreign object) that must change nothing. Hypothesis coverage: hyp:excl-agree / hyp:excl-disagree = all surviving holders of every held CPU carry the same exclusive policy; where they do, the rebuilt marker must be that policy. Non-trivial = >= 2 surviving allocations")
 }
 
 // c19StatusDiff: "" when the decoded resource status is exactly allocation a (CPU set, NUMA records in order).
